@@ -26,16 +26,33 @@ def solve_observed(env, opts):
     ob = Observation()
     ob.opts = dict(opts)
     ob.exc = None
+    kw = prog.decode_solve_options(opts)
     with prog.quiet():
         try:
-            ob.result = env.pep.solve(**prog.decode_solve_options(opts))
+            if kw.get("wrapper") == "mosek":
+                # MosekWrapper against the stand-in module (no recording wrapper on this path)
+                from vf import mosek_env
+                kw.pop("wrapper")
+                kw.pop("solver", None)
+                ob.result = mosek_env.solve(env.pep, **kw)
+            else:
+                ob.result = env.pep.solve(**kw)
         except Exception as exc:  # noqa
             ob.result = None
             ob.exc = exc
     ob.wrapper = env.pep.wrapper
-    ob.events = list(getattr(ob.wrapper, "events", []))
-    ob.sent_constraints, ob.sent_lmis = record.sent(ob.events)
-    ob.status = getattr(getattr(ob.wrapper, "prob", None), "status", None)
+    if type(ob.wrapper).__name__ == "MosekWrapper":
+        ob.events = []
+        ob.sent_constraints = list(env.pep._list_of_constraints_sent_to_wrapper)
+        ob.sent_lmis = list(env.pep._list_of_psd_sent_to_wrapper)
+        ob.status = getattr(getattr(ob.wrapper, "task", None), "cvxpy_status", None)
+        if ob.result is not None and ob.result != ob.result:
+            ob.result = None          # NaN from a failed stand-in solve
+            ob.status = ob.status or "failed"
+    else:
+        ob.events = list(getattr(ob.wrapper, "events", []))
+        ob.sent_constraints, ob.sent_lmis = record.sent(ob.events)
+        ob.status = getattr(getattr(ob.wrapper, "prob", None), "status", None)
     return ob
 
 
@@ -47,6 +64,9 @@ def solver_gave_up(ob, ctx):
         return False
     if type(ob.exc).__name__ == "SolverError":
         ctx.label("inconclusive:SolverError")
+        return True
+    if type(ob.wrapper).__name__ == "MosekWrapper" and ob.status != "optimal":
+        ctx.label("inconclusive:standin-status-%s" % ob.status)
         return True
     if ob.opts.get("drh") and ob.status not in ("optimal", None) and getattr(ob.wrapper, "optimal_G", 0) is None:
         ctx.label("inconclusive:heuristic-resolve-status-%s" % ob.status)
@@ -64,7 +84,7 @@ def leaf_exprs():
     return list(Expression.list_of_leaf_expressions)
 
 
-def certificate(pep, sent_constraints, sent_lmis, use_entry_duals=False):
+def certificate(pep, sent_constraints, sent_lmis, use_entry_duals=True):
     """Residual functional R = objective - sum lambda_i c_i + <S, G> + sum_j <Lambda_j, M_j>.
 
     Returns dict(const, max_nonconst, min_ineq_dual, min_eig_S, min_eig_L, scale, n_terms)."""
@@ -93,13 +113,19 @@ def certificate(pep, sent_constraints, sent_lmis, use_entry_duals=False):
     terms.append((1.0, sg))
     min_eig_L = np.inf
     L_max = 0.0
+    entry_sym_err = 0.0
     for m in sent_lmis:
         Lm = np.asarray(m.eval_dual(), dtype=float)
         if Lm.shape != tuple(m.shape):
             return {"shape_error": "LMI dual shape %r for LMI of shape %r" % (Lm.shape, m.shape)}
         W = Lm
         if use_entry_duals and getattr(m, "entries_dual_variable_value", None) is not None:
+            # multipliers of the entry equalities (exposed by the library for LMIs that are not symmetric as written):
+            # their symmetric part must be the PSD multiplier of the LMI
             W = np.asarray(m.entries_dual_variable_value, dtype=float)
+            if W.shape != Lm.shape:
+                return {"shape_error": "entries_dual_variable_value has shape %r for an LMI of shape %r" % (W.shape, m.shape)}
+            entry_sym_err = max(entry_sym_err, float(np.max(np.abs((W + W.T) / 2 - (Lm + Lm.T) / 2))) if W.size else 0.0)
         L_max = max(L_max, float(np.max(np.abs(Lm))) if Lm.size else 0.0)
         if Lm.size:
             min_eig_L = min(min_eig_L, float(np.min(np.linalg.eigvalsh((Lm + Lm.T) / 2))))
@@ -122,6 +148,7 @@ def certificate(pep, sent_constraints, sent_lmis, use_entry_duals=False):
         "S_asym": float(np.max(np.abs(S - S.T))) if n else 0.0,
         "min_eig_L": (min_eig_L if min_eig_L != np.inf else 0.0),
         "scale": 1.0 + lam_max + (float(np.max(np.abs(S))) if n else 0.0) + L_max,
+        "entry_sym_err": entry_sym_err,
         "n_terms": len(terms),
     }
 
